@@ -94,9 +94,9 @@ def check_one(arg):
     common.seam(sgraph, "ThreadPoolExecutor")
     sgraph.ThreadPoolExecutor = common.InlinePool  # the pool is only a speed-up; inline keeps a hang interruptible
     try:
-        pre = common.with_timeout(precompute, job, 10.0)
+        pre = common.with_timeout(precompute, job, 120.0)
     except common.CaseTimeout:
-        bad("precompute_hang", "precompute did not return within 10 s", "")
+        bad("precompute_hang", "precompute did not return within 120 s", "")
         return out
     except Exception as e:
         bad("precompute_raised", type(e).__name__, repr(e)[:300])
